@@ -87,11 +87,11 @@ impl ElixirDate {
         }
 
         let map = term.as_map()?;
-        let year = map.get(&OwnedTerm::Atom(Atom::new("year")))?.as_integer()? as i32;
+        let year = map.get(&OwnedTerm::Atom(Atom::new("year")))?.as_integer().and_then(|v| i32::try_from(v).ok())?;
         let month = map
             .get(&OwnedTerm::Atom(Atom::new("month")))?
-            .as_integer()? as u8;
-        let day = map.get(&OwnedTerm::Atom(Atom::new("day")))?.as_integer()? as u8;
+            .as_integer().and_then(|v| u8::try_from(v).ok())?;
+        let day = map.get(&OwnedTerm::Atom(Atom::new("day")))?.as_integer().and_then(|v| u8::try_from(v).ok())?;
 
         Some(Self { year, month, day })
     }
@@ -215,18 +215,18 @@ impl ElixirTime {
         }
 
         let map = term.as_map()?;
-        let hour = map.get(&OwnedTerm::Atom(Atom::new("hour")))?.as_integer()? as u8;
+        let hour = map.get(&OwnedTerm::Atom(Atom::new("hour")))?.as_integer().and_then(|v| u8::try_from(v).ok())?;
         let minute = map
             .get(&OwnedTerm::Atom(Atom::new("minute")))?
-            .as_integer()? as u8;
+            .as_integer().and_then(|v| u8::try_from(v).ok())?;
         let second = map
             .get(&OwnedTerm::Atom(Atom::new("second")))?
-            .as_integer()? as u8;
+            .as_integer().and_then(|v| u8::try_from(v).ok())?;
 
         let (microsecond_value, microsecond_precision) =
             if let Some(us) = map.get(&OwnedTerm::Atom(Atom::new("microsecond"))) {
                 if let Some((val, prec)) = us.as_2_tuple() {
-                    (val.as_integer()? as u32, prec.as_integer()? as u8)
+                    (val.as_integer().and_then(|v| u32::try_from(v).ok())?, prec.as_integer().and_then(|v| u8::try_from(v).ok())?)
                 } else {
                     (0, 0)
                 }
@@ -409,23 +409,23 @@ impl ElixirNaiveDateTime {
         }
 
         let map = term.as_map()?;
-        let year = map.get(&OwnedTerm::Atom(Atom::new("year")))?.as_integer()? as i32;
+        let year = map.get(&OwnedTerm::Atom(Atom::new("year")))?.as_integer().and_then(|v| i32::try_from(v).ok())?;
         let month = map
             .get(&OwnedTerm::Atom(Atom::new("month")))?
-            .as_integer()? as u8;
-        let day = map.get(&OwnedTerm::Atom(Atom::new("day")))?.as_integer()? as u8;
-        let hour = map.get(&OwnedTerm::Atom(Atom::new("hour")))?.as_integer()? as u8;
+            .as_integer().and_then(|v| u8::try_from(v).ok())?;
+        let day = map.get(&OwnedTerm::Atom(Atom::new("day")))?.as_integer().and_then(|v| u8::try_from(v).ok())?;
+        let hour = map.get(&OwnedTerm::Atom(Atom::new("hour")))?.as_integer().and_then(|v| u8::try_from(v).ok())?;
         let minute = map
             .get(&OwnedTerm::Atom(Atom::new("minute")))?
-            .as_integer()? as u8;
+            .as_integer().and_then(|v| u8::try_from(v).ok())?;
         let second = map
             .get(&OwnedTerm::Atom(Atom::new("second")))?
-            .as_integer()? as u8;
+            .as_integer().and_then(|v| u8::try_from(v).ok())?;
 
         let (microsecond_value, microsecond_precision) =
             if let Some(us) = map.get(&OwnedTerm::Atom(Atom::new("microsecond"))) {
                 if let Some((val, prec)) = us.as_2_tuple() {
-                    (val.as_integer()? as u32, prec.as_integer()? as u8)
+                    (val.as_integer().and_then(|v| u32::try_from(v).ok())?, prec.as_integer().and_then(|v| u8::try_from(v).ok())?)
                 } else {
                     (0, 0)
                 }
@@ -671,23 +671,23 @@ impl ElixirDateTime {
         }
 
         let map = term.as_map()?;
-        let year = map.get(&OwnedTerm::Atom(Atom::new("year")))?.as_integer()? as i32;
+        let year = map.get(&OwnedTerm::Atom(Atom::new("year")))?.as_integer().and_then(|v| i32::try_from(v).ok())?;
         let month = map
             .get(&OwnedTerm::Atom(Atom::new("month")))?
-            .as_integer()? as u8;
-        let day = map.get(&OwnedTerm::Atom(Atom::new("day")))?.as_integer()? as u8;
-        let hour = map.get(&OwnedTerm::Atom(Atom::new("hour")))?.as_integer()? as u8;
+            .as_integer().and_then(|v| u8::try_from(v).ok())?;
+        let day = map.get(&OwnedTerm::Atom(Atom::new("day")))?.as_integer().and_then(|v| u8::try_from(v).ok())?;
+        let hour = map.get(&OwnedTerm::Atom(Atom::new("hour")))?.as_integer().and_then(|v| u8::try_from(v).ok())?;
         let minute = map
             .get(&OwnedTerm::Atom(Atom::new("minute")))?
-            .as_integer()? as u8;
+            .as_integer().and_then(|v| u8::try_from(v).ok())?;
         let second = map
             .get(&OwnedTerm::Atom(Atom::new("second")))?
-            .as_integer()? as u8;
+            .as_integer().and_then(|v| u8::try_from(v).ok())?;
 
         let (microsecond_value, microsecond_precision) =
             if let Some(us) = map.get(&OwnedTerm::Atom(Atom::new("microsecond"))) {
                 if let Some((val, prec)) = us.as_2_tuple() {
-                    (val.as_integer()? as u32, prec.as_integer()? as u8)
+                    (val.as_integer().and_then(|v| u32::try_from(v).ok())?, prec.as_integer().and_then(|v| u8::try_from(v).ok())?)
                 } else {
                     (0, 0)
                 }
@@ -703,10 +703,10 @@ impl ElixirDateTime {
             .as_erlang_string()?;
         let utc_offset = map
             .get(&OwnedTerm::Atom(Atom::new("utc_offset")))?
-            .as_integer()? as i32;
+            .as_integer().and_then(|v| i32::try_from(v).ok())?;
         let std_offset = map
             .get(&OwnedTerm::Atom(Atom::new("std_offset")))?
-            .as_integer()? as i32;
+            .as_integer().and_then(|v| i32::try_from(v).ok())?;
 
         Some(Self {
             year,
